@@ -243,6 +243,31 @@ def k_conv(p):
                 if not same:
                     return True, "bit_to_number on the %s %d-bit array (is_string=%s) returns a wrong number (%s...)" % ("second" if bits is a2 else "first", n, is_string, str(got)[:20])
         return False, "ok"
+    if fn == "wide-string":
+        import sys
+        D, to = int(p["D"]), p.get("to", "dna")
+        base = 4 if to == "dna" else 2
+        number = ("7301942685" * (D // 10 + 1))[:D]
+        old = sys.get_int_max_str_digits()
+        sys.set_int_max_str_digits(0)
+        v = int(number)
+        sys.set_int_max_str_digits(old)
+        width = 1
+        while base ** width <= v:
+            width += 1
+        width += 3
+        digs, x = [], v
+        for _ in range(width):
+            digs.append(x % base)
+            x //= base
+        digs.reverse()
+        r, ex = call(dsw.number_to_dna if to == "dna" else dsw.number_to_bit, number, width)     # default interpreter limits
+        if ex:
+            return True, "number_to_%s raised %s on a %d-digit decimal string" % (to, ex, D)
+        got = [NUC.index(c) for c in r] if to == "dna" else [int(b) for b in r]
+        if got != digs:
+            return True, "number_to_%s of a %d-digit decimal string is not its padded base-%d expansion" % (to, D, base)
+        return False, "ok"
     if fn == "bits":
         bits = p["bits"]
         L = len(bits)
